@@ -427,7 +427,12 @@ def main(ck):
     ck.cov["known_finding_cases"] = known_count
     ck.cov["upstream_errors_skipped"] = sum(1 for c in cases if c.get("up_err"))
     ck.cov["hits_sample_timestamp"] = sum(1 for c in cases if c.get("hits_sample"))
-    ck.cov["range_vs_instants_checked"] = sum(1 for c in cases if c["mode"] == "range")
+    ck.cov["range_vs_instants_checked"] = sum(1 for c in cases if c.get("ri_checked"))
+    ck.cov["range_queries"] = sum(1 for c in cases if c["mode"] == "range")
+    bad_oracle = [c for c in cases if c.get("up_ri_diff")]
+    if bad_oracle:
+        ck.notes.append("upstream's own range answer differs from its instant answers on %d cases, e.g. %s: %s" % (
+            len(bad_oracle), bad_oracle[0]["expr"], bad_oracle[0]["up_ri_diff"]))
     ck.cov["samples"] = [{"expr": c["expr"], "mode": c["mode"], "t": c.get("t"), "start": c.get("start"), "end": c.get("end"),
                           "step": c.get("step"), "nseries": c.get("nseries")} for c in cases[:4]]
     stale = [f["id"] for f in ck.findings if f.get("status") == "open" and f["id"] not in known_count]
